@@ -6722,3 +6722,285 @@ func continuationFreshCache(c *Ctx) {
 	}
 	c.Floor("continuations handed to deferrable natives", n, 5)
 }
+
+// ---------------------------------------------------------------------------
+// gc-units (C02) - the collector's arithmetic mixes three units: block heights, counts of GC periods
+// (height / GarbageCollectionPeriod) and header-hash page numbers (height / headerBatchCount). The test that protects
+// the page of header hashes that is not stored yet compares *page numbers*; written with a period count on one side
+// it never holds for real heights and the collector deletes block records HeaderHashes.init walks on the next start.
+// A small unit inference over the functions of package core that mention one of the two divisors: heights come
+// from BlockHeight/HeaderHeight/persistedHeight/GetMaxTraceableBlocks and from parameters (units taken from the call
+// sites), /GarbageCollectionPeriod turns a height into periods and * back, /headerBatchCount into pages and * back;
+// both sides of a comparison must have the same unit.
+func ruleGCUnits(c *Ctx) {
+	pk := c.P.Pkg("pkg/core")
+	if pk == nil {
+		c.Lost("gc-units.anchor", "package core not found")
+		return
+	}
+	info := pk.TypesInfo
+	const (
+		uH, uP, uG, uD, uQ = "height", "periods", "pages", "number", "?"
+		sGCP, sHBC         = "GCP", "HBC"
+	)
+	special := func(e ast.Expr) string {
+		e = ast.Unparen(e)
+		if call, ok := e.(*ast.CallExpr); ok && len(call.Args) == 1 {
+			if tv := info.Types[call.Fun]; tv.IsType() {
+				e = ast.Unparen(call.Args[0])
+			}
+		}
+		switch x := e.(type) {
+		case *ast.SelectorExpr:
+			if x.Sel.Name == "GarbageCollectionPeriod" {
+				return sGCP
+			}
+		case *ast.Ident:
+			if cst, ok := info.ObjectOf(x).(*types.Const); ok && cst.Name() == "headerBatchCount" {
+				return sHBC
+			}
+		}
+		return ""
+	}
+	inScope := map[*FuncDecl]bool{}
+	var scope []*FuncDecl
+	for _, fd := range c.P.AllFuncDecls() {
+		if fd.Pkg != pk || fd.Decl.Body == nil {
+			continue
+		}
+		hit := false
+		ast.Inspect(fd.Decl.Body, func(x ast.Node) bool {
+			if e, ok := x.(ast.Expr); ok && special(e) != "" {
+				hit = true
+			}
+			return !hit
+		})
+		if hit {
+			inScope[fd] = true
+			scope = append(scope, fd)
+		}
+	}
+	sort.Slice(scope, func(i, j int) bool { return FuncKey(scope[i].Obj) < FuncKey(scope[j].Obj) })
+	paramUnit := map[types.Object]string{}
+	type finding struct {
+		fd  *FuncDecl
+		pos token.Pos
+		msg string
+	}
+	var findings []finding
+	nCmp := 0
+	var analyse func(fd *FuncDecl, report bool)
+	analyse = func(fd *FuncDecl, report bool) {
+		env := map[types.Object]string{}
+		sig := fd.Obj.Type().(*types.Signature)
+		for i := 0; i < sig.Params().Len(); i++ {
+			if u, ok := paramUnit[sig.Params().At(i)]; ok {
+				env[sig.Params().At(i)] = u
+			}
+		}
+		var eval func(e ast.Expr) string
+		eval = func(e ast.Expr) string {
+			e = ast.Unparen(e)
+			if tv, ok := info.Types[e]; ok && tv.Value != nil && special(e) == "" {
+				return uD
+			}
+			switch x := e.(type) {
+			case *ast.Ident:
+				if u, ok := env[info.ObjectOf(x)]; ok {
+					return u
+				}
+			case *ast.CallExpr:
+				if tv := info.Types[x.Fun]; tv.IsType() && len(x.Args) == 1 {
+					return eval(x.Args[0])
+				}
+				if id, ok := x.Fun.(*ast.Ident); ok && (id.Name == "min" || id.Name == "max") {
+					u := uD
+					for _, a := range x.Args {
+						if au := eval(a); au != uD && au != uQ {
+							u = au
+						}
+					}
+					return u
+				}
+				name := ""
+				switch f := x.Fun.(type) {
+				case *ast.SelectorExpr:
+					name = f.Sel.Name
+				case *ast.Ident:
+					name = f.Name
+				}
+				switch name {
+				case "BlockHeight", "HeaderHeight", "GetMaxTraceableBlocks":
+					return uH
+				case "LoadUint32":
+					for _, a := range x.Args {
+						found := false
+						ast.Inspect(a, func(y ast.Node) bool {
+							if s, ok := y.(*ast.SelectorExpr); ok && s.Sel.Name == "persistedHeight" {
+								found = true
+							}
+							return true
+						})
+						if found {
+							return uH
+						}
+					}
+				}
+			case *ast.BinaryExpr:
+				sx, sy := special(x.X), special(x.Y)
+				switch x.Op {
+				case token.QUO:
+					a := eval(x.X)
+					switch {
+					case sy == sGCP && a == uH:
+						return uP
+					case sy == sHBC && a == uH:
+						return uG
+					case sy != "" && a != uQ && a != uD:
+						if report {
+							findings = append(findings, finding{fd, x.Pos(), fmt.Sprintf("`%s` divides %s by the %s", types.ExprString(x), a, map[string]string{sGCP: "length of a GC period", sHBC: "size of a header-hash page"}[sy])})
+						}
+						return uQ
+					case sy != "":
+						return uQ
+					}
+					b := eval(x.Y)
+					if b == uD {
+						return a
+					}
+					return uQ
+				case token.MUL:
+					a, b := eval(x.X), eval(x.Y)
+					switch {
+					case sy == sGCP && a == uP, sx == sGCP && b == uP:
+						return uH
+					case sy == sHBC && a == uG, sx == sHBC && b == uG:
+						return uH
+					case sy != "" || sx != "":
+						return uQ
+					case a == uD:
+						return b
+					case b == uD:
+						return a
+					}
+					return uQ
+				case token.ADD, token.SUB:
+					a, b := eval(x.X), eval(x.Y)
+					if sx != "" {
+						a = uH
+					}
+					if sy != "" {
+						b = uH
+					}
+					switch {
+					case a == b:
+						return a
+					case a == uD:
+						return b
+					case b == uD:
+						return a
+					}
+					return uQ
+				}
+			}
+			return uQ
+		}
+		var walk func(n ast.Node)
+		walk = func(n ast.Node) {
+			ast.Inspect(n, func(x ast.Node) bool {
+				switch s := x.(type) {
+				case *ast.FuncLit:
+					return false
+				case *ast.AssignStmt:
+					for i, l := range s.Lhs {
+						id, ok := l.(*ast.Ident)
+						if !ok || i >= len(s.Rhs) {
+							continue
+						}
+						o := info.ObjectOf(id)
+						switch s.Tok {
+						case token.DEFINE, token.ASSIGN:
+							env[o] = eval(s.Rhs[i])
+						case token.QUO_ASSIGN:
+							env[o] = eval(&ast.BinaryExpr{X: id, Op: token.QUO, Y: s.Rhs[i]})
+						case token.MUL_ASSIGN:
+							env[o] = eval(&ast.BinaryExpr{X: id, Op: token.MUL, Y: s.Rhs[i]})
+						case token.ADD_ASSIGN, token.SUB_ASSIGN:
+							env[o] = eval(&ast.BinaryExpr{X: id, Op: token.ADD, Y: s.Rhs[i]})
+						}
+					}
+				case *ast.ValueSpec:
+					for i, nm := range s.Names {
+						if i < len(s.Values) {
+							env[info.Defs[nm]] = eval(s.Values[i])
+						}
+					}
+				case *ast.BinaryExpr:
+					switch s.Op {
+					case token.EQL, token.NEQ, token.LSS, token.GTR, token.LEQ, token.GEQ:
+						a, b := eval(s.X), eval(s.Y)
+						if special(s.X) != "" {
+							a = uH
+						}
+						if special(s.Y) != "" {
+							b = uH
+						}
+						known := func(u string) bool { return u == uH || u == uP || u == uG }
+						if known(a) && known(b) {
+							if report {
+								nCmp++
+							}
+							if a != b && report {
+								findings = append(findings, finding{fd, s.Pos(), fmt.Sprintf("`%s` compares %s with %s", trunc(types.ExprString(s), 90), a, b)})
+							}
+						}
+					}
+				case *ast.CallExpr:
+					// units of arguments flow into the parameters of the callee (functions of the scope)
+					if cf := calleeFunc(info, s); cf != nil {
+						if cd := c.P.DeclOf(cf); cd != nil && inScope[cd] {
+							csig := cf.Type().(*types.Signature)
+							for i, a := range s.Args {
+								if i < csig.Params().Len() {
+									if u := eval(a); u == uH || u == uP || u == uG {
+										paramUnit[csig.Params().At(i)] = u
+									}
+								}
+							}
+						}
+					}
+				}
+				return true
+			})
+		}
+		walk(fd.Decl.Body)
+	}
+	// callers first (two rounds reach a fixpoint for this call depth), reports in the last round
+	for _, fd := range c.P.AllFuncDecls() {
+		if fd.Pkg == pk && fd.Decl.Body != nil && !inScope[fd] {
+			analyse(fd, false)
+		}
+	}
+	for range 2 {
+		for _, fd := range scope {
+			analyse(fd, false)
+		}
+	}
+	for _, fd := range scope {
+		analyse(fd, true)
+	}
+	bad := map[*FuncDecl][]finding{}
+	for _, f := range findings {
+		bad[f.fd] = append(bad[f.fd], f)
+	}
+	for _, fd := range scope {
+		key := "gc-units." + FuncKey(fd.Obj)
+		if fs := bad[fd]; len(fs) > 0 {
+			c.Fail(key, c.P.Pos(fs[0].pos), fmt.Sprintf("%s mixes units: %s - a test between a count of GC periods, a block height and a header-hash page number holds for other heights than the one it was written for (the guard that keeps the collector off the page HeaderHashes.init walks on start never fires)", FuncKey(fd.Obj), fs[0].msg))
+		} else {
+			c.OK(key, c.P.Pos(fd.Decl.Pos()), "every comparison whose operands have known units compares like with like")
+		}
+	}
+	c.Floor("functions doing period/page arithmetic", len(scope), 4)
+	c.Floor("comparisons with known units on both sides", nCmp, 3)
+}
